@@ -55,16 +55,20 @@ def shift_down(o, off):
     return _shift_up(o, -off)
 
 
-def one_run(parser, matcher, compiler, idg, src, stop, M=None, check_g13=True, case=None):
+def one_run(parser, matcher, compiler, idg, src, stop, M=None, check_g13=True, case=None, hold=None):
     parser.stop_at_first_error = stop
     off = idg._id_counter if hasattr(idg, "_id_counter") else None
     with probe.observing() as obs:
         try:
             d = parser.parse(src, matcher) if matcher is not None else parser.parse(src)
+            if hold is not None:
+                hold.append((d, copy.deepcopy(d)))
             d = dict(d)
             d["uri"] = "u"
             before = copy.deepcopy(d)
             p = compiler.compile(d)
+            if hold is not None:
+                hold.append((p, copy.deepcopy(p)))
             if M is not None:
                 M.count("compile_purity_checks")
                 if d != before:
@@ -107,8 +111,15 @@ def check_history(kind, hist, stops, M):
     M.hist("history_length", len(hist))
     env = fresh(kind)
     r = None
+    held = []
     for name, stop in zip(hist, stops):
-        r = one_run(*env, POOL[name], stop, M, case=case)
+        r = one_run(*env, POOL[name], stop, M, case=case, hold=held)
+    M.count("returned_results_rechecked", len(held))
+    for obj, snap in held:
+        if obj != snap:
+            M.violation("G15", {"what": "a document or pickle list returned earlier in the history was modified by later parses/compiles on the same objects",
+                                "config": kind, "history": list(hist)}, case)
+            break
     M.cover("predecessor_pairs", "%s>%s" % (hist[-2] if len(hist) > 1 else "-", hist[-1]))
     want = solo(kind, hist[-1], stops[-1])
     if r != want:
